@@ -178,6 +178,11 @@ def judge(case, records, app):
             P(tagin, t, "input-rail-calls-differ", {"got": got_in, "expected": mt["exp_in"]})
         if mt["in_blocked"] is not None:
             had_block = True
+            if ver == "v1" and mt["text"] != rec["text"]:
+                # rewritten by one rail, then rejected by a later one: later stages (the prompts of later turns) still
+                # must only see the rewritten text
+                rewritten_tokens.append(orig_token)
+                stats["rewritten_then_rejected_turns"] = stats.get("rewritten_then_rejected_turns", 0) + 1
             if llms:
                 P(tagin, t, "llm-called-after-input-rejection", len(llms))
             if outs and ver == "v1":
